@@ -6,6 +6,7 @@ with the inputs. Everything is written below a tempfile.TemporaryDirectory() tha
 """
 import base64
 import os
+import re
 import struct
 import sys
 import tempfile
@@ -98,7 +99,8 @@ def strategy(tier):
     val = st.fixed_dictionaries({
         "kind": st.sampled_from(["pyfloat", "pyint", "npfloat", "npfloat32", "npint", "arr0", "vec", "vec", "vec", "mat"]),
         "shape": st.lists(st.integers(1, 3), min_size=2, max_size=2), "len": st.integers(1, 6),
-        "dtype": st.sampled_from(["f8", "f8", "i8"]), "seed": seed})
+        "dtype": st.sampled_from(["f8", "f8", "i8"]), "seed": seed,
+        "layout": st.sampled_from(["C", "C", "F", "rev"])})
 
     @st.composite
     def log(draw):
@@ -334,8 +336,15 @@ def _log_value(v, call):
         return np.array(float(num()))
     shape = (v["len"],) if k == "vec" else tuple(v["shape"])
     if v["dtype"] == "i8":
-        return rng.integers(-10 ** 4, 10 ** 4, size=shape).astype(np.int64)
-    return np.asarray(num(shape), dtype=float)
+        x = rng.integers(-10 ** 4, 10 ** 4, size=shape).astype(np.int64)
+    else:
+        x = np.asarray(num(shape), dtype=float)
+    lay = v.get("layout", "C")      # memory layout of the logged array: C order, Fortran order, or a reversed view
+    if lay == "F" and x.ndim == 2:
+        x = np.asfortranarray(x)
+    elif lay == "rev":
+        x = x[::-1]
+    return x
 
 
 def _check_log(case, pym, tmp, labels, bad):
@@ -371,7 +380,7 @@ def _check_log(case, pym, tmp, labels, bad):
         for call in range(case["calls"]):
             row = [_log_value(v, call) for v in values]
             for s, x in zip(sigs, row):
-                s.state = x.copy() if isinstance(x, np.ndarray) else x
+                s.state = x.copy(order="K") if isinstance(x, np.ndarray) and x.flags.contiguous else x
             mod.response()
             written.append(row)
     except Exception as e:
@@ -414,7 +423,21 @@ def _check_log(case, pym, tmp, labels, bad):
             it = None
         if it != k:
             bad("log:iteration_column", f"row {k}: first column {cols[0]!r}")
-        flat = [x for val in row for x in np.asarray(val).reshape(-1).tolist()]
+        # expected value of every column: the entry its header name points at ("tag[i, j]"); C order as fall-back
+        flat = []
+        hcol = 1
+        for val in row:
+            arr = np.asarray(val)
+            nv = int(arr.size)
+            for q in range(nv):
+                name = header[hcol + q] if len(header) == 1 + ncols else ""
+                mm = re.search(r"\[([0-9, ]*)\]\s*$", name)
+                idx = tuple(int(t) for t in mm.group(1).replace(" ", "").split(",") if t != "") if mm else None
+                if idx is not None and len(idx) == arr.ndim and all(0 <= a < b for a, b in zip(idx, arr.shape)) and nv > 1:
+                    flat.append(arr[idx].item())
+                else:
+                    flat.append(arr.reshape(-1)[q].item())
+            hcol += nv
         for j, (c, x) in enumerate(zip(cols[1:], flat)):
             want = float(format(x, fmt))
             try:
